@@ -7,7 +7,74 @@ use crate::model::val::V;
 use crate::mon;
 use crate::rng::Rng;
 use crate::Prop;
-use std::collections::BTreeMap;
+use std::collections::{BTreeMap, VecDeque};
+
+/// steps of a forced chain on one array (index into ARRAYS)
+enum Forced {
+    Store(usize, Vec<i64>),
+    Erase(usize),
+    Dim(usize, Vec<i64>),
+}
+
+/// (l-value, type code) operands of the in-program SWAP cases
+const SWAP_LV: [(&str, u8); 10] =
+    [("A%", 0), ("B!", 1), ("C#", 2), ("D", 1), ("E$", 3), ("H%(1)", 0), ("G(2)", 1), ("GA#(1,1)", 2), ("K$(0)", 3), ("A1%", 0)];
+
+/// SWAP inside a program: equal types exchange; mixed types stop with TYPE MISMATCH and, after CONT, both
+/// operands still hold their own values.
+fn swap_prog_case(rng: &mut Rng, ctx: &mut Ctx) {
+    let i = rng.usize(SWAP_LV.len());
+    let mut j = rng.usize(SWAP_LV.len());
+    if i == j {
+        j = (j + 1) % SWAP_LV.len();
+    }
+    let ((l1, t1), (l2, t2)) = (SWAP_LV[i], SWAP_LV[j]);
+    let val = |t: u8, k: usize| -> (&str, &str) {
+        match t {
+            0 => [("7", " 7 "), ("127", " 127 ")][k],
+            1 => [("1.25", " 1.25 "), ("-3.5", "-3.5 ")][k],
+            2 => [("2.5", " 2.5 "), ("40.75", " 40.75 ")][k],
+            _ => [("\"s1\"", "s1"), ("\"s2\"", "s2")][k],
+        }
+    };
+    let val = |t: u8, k: usize| { let (a, b) = val(t, k); (a.to_string(), b.to_string()) };
+    let ((r1, p1), (r2, p2)) = (val(t1, 0), val(t2, 1));
+    let tail = *rng.pick(&["", ":X9=1", ":REM"]);
+    let lines = [
+        format!("10 {}={}:{}={}", l1, r1, l2, r2),
+        format!("20 SWAP {},{}{}", l1, l2, tail),
+        format!("30 PRINT \"[\";{};\"][\";{};\"]\"", l1, l2),
+    ];
+    let mut s = Session::new();
+    s.drain(8);
+    for l in &lines {
+        s.command(l, 64);
+    }
+    let mut text = lines.join("\n");
+    let mark = s.mark();
+    s.command("RUN", 4000);
+    text.push_str("\nRUN");
+    let want = if t1 == t2 {
+        format!("[{}][{}]\nREADY.\n<STOPPED>", p2, p1)
+    } else {
+        s.command("CONT", 4000);
+        text.push_str("\nCONT");
+        format!("?TYPE MISMATCH IN 20\nREADY.\n<STOPPED>[{}][{}]\nREADY.\n<STOPPED>", p1, p2)
+    };
+    mon::journal(&text);
+    let got = transcript(s.events_since(mark), Norm::STD);
+    ctx.count("swap_programs");
+    if got != want {
+        ctx.violation(
+            "swap-program",
+            if t1 == t2 { "vars:swap-program:same" } else { "vars:swap-program:mixed" },
+            &format!("printed {:?}\n expected {:?}", got, want),
+            &text,
+        );
+        return;
+    }
+    ctx.eval(&text, t1 != t2);
+}
 
 pub struct C06;
 
@@ -110,6 +177,9 @@ impl Prop for C06 {
     }
 
     fn run_case(&mut self, _idx: u64, rng: &mut Rng, ctx: &mut Ctx) {
+        if _idx % 8 == 7 {
+            return swap_prog_case(rng, ctx);
+        }
         let mut m = Model { vals: BTreeMap::new(), dims: BTreeMap::new(), types: [1; 26], unknown: false, unk_dims: Default::default(), unk: Default::default() };
         let mut s = Session::new();
         s.drain(8);
@@ -118,10 +188,35 @@ impl Prop for C06 {
         let mut saw_array = false;
         let mut saw_error = false;
         let mut next_val = 1i64;
+        let mut forced: VecDeque<Forced> = VecDeque::new();
         for step in 0..n {
             let mut expect_err: Option<&str> = None;
             let mut any_err_ok = false;
-            let stmt: String = match rng.usize(12) {
+            let mut f = forced.pop_front();
+            let mut choice = match &f {
+                Some(Forced::Store(..)) => 3,
+                Some(Forced::Erase(..)) => 7,
+                Some(Forced::Dim(..)) => 6,
+                None => rng.usize(13),
+            };
+            if choice == 12 {
+                // a chain on one array, with no other array access in between: store an element, ERASE, DIM with
+                // smaller bounds that exclude the element, store the same element again (must be refused)
+                let ai = rng.usize(ARRAYS.len());
+                let (name, nd, _) = ARRAYS[ai];
+                let b = m.dims.get(name).cloned().unwrap_or_else(|| vec![10; nd]);
+                if !m.dims_unknown(name) && b.iter().all(|x| *x >= 1) {
+                    let subs: Vec<i64> = b.iter().map(|x| rng.range(1, *x + 1)).collect();
+                    let shrink = rng.usize(nd);
+                    let newb: Vec<i64> = (0..nd).map(|d| if d == shrink { rng.range(0, subs[d]) } else { *rng.pick(&[b[d], subs[d], 10]) }).collect();
+                    f = Some(Forced::Store(ai, subs.clone()));
+                    forced.push_back(Forced::Erase(ai));
+                    forced.push_back(Forced::Dim(ai, newb));
+                    forced.push_back(Forced::Store(ai, subs));
+                }
+                choice = 3;
+            }
+            let stmt: String = match choice {
                 0..=2 => {
                     let (name, code) = SCALARS[rng.usize(SCALARS.len())];
                     let ty = m.ty(name, code);
@@ -151,17 +246,21 @@ impl Prop for C06 {
                 }
                 3..=5 => {
                     saw_array = true;
-                    let (name, nd, code) = ARRAYS[rng.usize(ARRAYS.len())];
+                    let (name, nd, code) = ARRAYS[if let Some(Forced::Store(ai, _)) = &f { *ai } else { rng.usize(ARRAYS.len()) }];
                     let ty = m.ty(name, code);
                     let bounds = m.dims.get(name).cloned();
-                    let subs: Vec<i64> = (0..nd)
-                        .map(|d| {
-                            let b = bounds.as_ref().map(|b| b[d]).unwrap_or(10);
-                            let x = *rng.pick(&[-1, 0, 0, 1, 1, b - 1, b, b, b + 1, 10, 11, 2, 3, 12, 23, 32767]);
-                            // a negative subscript on first use: whether the array then exists is open
-                            if bounds.is_none() && x < 0 { 0 } else { x }
-                        })
-                        .collect();
+                    let subs: Vec<i64> = if let Some(Forced::Store(_, subs)) = &f {
+                        subs.clone()
+                    } else {
+                        (0..nd)
+                            .map(|d| {
+                                let b = bounds.as_ref().map(|b| b[d]).unwrap_or(10);
+                                let x = *rng.pick(&[-1, 0, 0, 1, 1, b - 1, b, b, b + 1, 10, 11, 2, 3, 12, 23, 32767]);
+                                // a negative subscript on first use: whether the array then exists is open
+                                if bounds.is_none() && x < 0 { 0 } else { x }
+                            })
+                            .collect()
+                    };
                     let key = format!("{}({})", name, subs.iter().map(|x| x.to_string()).collect::<Vec<_>>().join(","));
                     // the subscript as typed: sometimes with a fraction (floored), never changing the element meant
                     let typed_subs: Vec<String> = subs
@@ -197,8 +296,8 @@ impl Prop for C06 {
                 }
                 6 => {
                     saw_array = true;
-                    let (name, nd, _) = ARRAYS[rng.usize(ARRAYS.len())];
-                    let b: Vec<i64> = (0..nd).map(|_| rng.range(0, 12)).collect();
+                    let (name, nd, _) = ARRAYS[if let Some(Forced::Dim(ai, _)) = &f { *ai } else { rng.usize(ARRAYS.len()) }];
+                    let b: Vec<i64> = if let Some(Forced::Dim(_, b)) = &f { b.clone() } else { (0..nd).map(|_| rng.range(0, 12)).collect() };
                     if m.dims.contains_key(name) {
                         expect_err = Some("REDIMENSIONED ARRAY");
                     } else if m.dims_unknown(name) {
@@ -210,7 +309,7 @@ impl Prop for C06 {
                 }
                 7 => {
                     saw_array = true;
-                    let (name, _, _) = ARRAYS[rng.usize(ARRAYS.len())];
+                    let (name, _, _) = ARRAYS[if let Some(Forced::Erase(ai)) = &f { *ai } else { rng.usize(ARRAYS.len()) }];
                     if m.dims.remove(name).is_some() {
                         let prefix = format!("{}(", name);
                         m.vals.retain(|k, _| !k.starts_with(&prefix));
@@ -352,7 +451,7 @@ impl Prop for C06 {
                 return;
             }
             // (b) read everything back
-            if step % 4 == 3 || step == n - 1 {
+            if (step % 4 == 3 || step == n - 1) && forced.is_empty() {
                 let mut refs: Vec<(String, u8)> = vec![];
                 for (name, code) in SCALARS.iter() {
                     let _ = code;
